@@ -117,7 +117,9 @@ func allDirections() []di.Direction {
 
 var directions = allDirections()
 
-var languages = []string{"", "en", "fr", "ar", "he", "ru", "zh", "ja", "ko", "tr", "hi", "fr-be", "en-us", "xx", "zz-unknown", "und", "EN", "el", "th"}
+var languages = []string{"", "en", "fr", "ar", "he", "ru", "zh", "ja", "ko", "tr", "hi", "fr-be", "en-us", "xx", "zz-unknown", "und", "EN", "el", "th",
+	// tags that share a primary subtag but have their own entry in the language table
+	"pa", "pa-pk", "ku-tr", "ku-iq", "mn-mn", "mn-cn", "zh-cn", "zh-tw", "az-az", "az-ir", "ks", "ks-devanagari"}
 
 var fmKinds = []string{"one", "script", "runehash", "hintrune", "cmap"}
 
